@@ -1,6 +1,7 @@
 package pc
 
 import (
+	"sort"
 	"fmt"
 	"go/ast"
 	"go/token"
@@ -24,6 +25,7 @@ type cliClient struct {
 	wrappers map[types.Object]bool // buffered writers wrapped around the output parameter
 	pending  types.Object          // the builder holding not yet terminated input
 	stmts    types.Object          // result of SplitStatements
+	rel      map[*ast.FuncDecl]bool
 }
 
 // Inline: small helpers of the command (a compile-and-print function, predicates) are interpreted in place.
@@ -39,7 +41,44 @@ func (c *cliClient) Inline(e *Engine, call *ast.CallExpr, callee *types.Func, de
 		}
 		return true
 	})
-	return !loops
+	// a helper with a loop is interpreted in place only when it takes part in the work this rule looks at
+	// (compiles, splits, or touches a text buffer) - a loop over file descriptors or flags need not stabilise
+	return !loops || c.relevant(decl, 0)
+}
+
+// relevant: the function (or a function of the command it calls) compiles or splits statements or uses a builder.
+func (c *cliClient) relevant(decl *ast.FuncDecl, depth int) bool {
+	if c.rel == nil {
+		c.rel = map[*ast.FuncDecl]bool{}
+	}
+	if v, ok := c.rel[decl]; ok {
+		return v
+	}
+	c.rel[decl] = false
+	info := c.p.Info
+	found := false
+	ast.Inspect(decl.Body, func(n ast.Node) bool {
+		call, ok := n.(*ast.CallExpr)
+		if !ok || found {
+			return !found
+		}
+		f := Callee(info, call)
+		if f != nil && (f == c.compile || f.Pkg() != nil && f.Pkg().Path() == PathParser && fnName(f) == "SplitStatements") {
+			found = true
+			return false
+		}
+		if sel, isSel := ast.Unparen(call.Fun).(*ast.SelectorExpr); isSel && isBuilder(info, sel.X) {
+			found = true
+			return false
+		}
+		if d2, dpkg := c.p.DeclOf(f); d2 != nil && dpkg == c.p.Main && depth < 4 && c.relevant(d2, depth+1) {
+			found = true
+			return false
+		}
+		return true
+	})
+	c.rel[decl] = found
+	return found
 }
 
 func isScannerErr(callee *types.Func) bool {
@@ -47,7 +86,7 @@ func isScannerErr(callee *types.Func) bool {
 }
 
 func (c *cliClient) PostCall(e *Engine, st *State, call *ast.CallExpr, callee *types.Func) *State {
-	if objOf(e.Info, call.Fun) == c.logErr && c.logErr != nil {
+	if c.logErr != nil && c.ent(e, call.Fun) == c.logErr {
 		return st.WithExt("logged", "1")
 	}
 	if isScannerErr(callee) {
@@ -66,15 +105,17 @@ func (c *cliClient) PostAssign(e *Engine, st *State, lhs, rhs []ast.Expr, _ ast.
 	}
 	callee := Callee(e.Info, call)
 	// v := <prelude>.String(): a snapshot of the prelude, valid until the prelude is written again
-	if sel, isSel := ast.Unparen(call.Fun).(*ast.SelectorExpr); isSel && sel.Sel.Name == "String" && c.prelude != nil && objOf(e.Info, sel.X) == c.prelude && len(lhs) == 1 {
+	if sel, isSel := ast.Unparen(call.Fun).(*ast.SelectorExpr); isSel && sel.Sel.Name == "String" && c.prelude != nil && c.ent(e, sel.X) == c.prelude && len(lhs) == 1 {
 		if o := objOf(e.Info, lhs[0]); o != nil {
 			return st.WithExt("snap:"+e.objKey(o), "1")
 		}
 	}
 	switch {
 	case callee == c.compile && len(lhs) == 2:
+		st = e.DropTags(st, "compileerr")
 		if k := e.CanonSt(st, lhs[1]); k.OK {
-			st = st.WithExt("compileerr", k.Key)
+			st = st.WithExt("compileerr", k.Key).WithExt("compileres", "")
+			st = e.SetTag(st, lhs[1], "compileerr") // the value keeps its tag when it is returned or copied
 		}
 		if k := e.CanonSt(st, lhs[0]); k.OK {
 			st = st.WithExt("compilesql", k.Key)
@@ -90,6 +131,17 @@ func (c *cliClient) PostAssign(e *Engine, st *State, lhs, rhs []ast.Expr, _ ast.
 						idents = append(idents, e.objKey(o))
 					}
 				}
+				// a parameter of a helper interpreted in place: the variables of what was passed
+				if rx := e.ResolveExpr(id); rx != ast.Expr(id) {
+					ast.Inspect(rx, func(m ast.Node) bool {
+						if id2, ok := m.(*ast.Ident); ok {
+							if o, isVar := objOf(e.Info, id2).(*types.Var); isVar {
+								idents = append(idents, e.objKey(o))
+							}
+						}
+						return true
+					})
+				}
 			}
 			return true
 		})
@@ -103,7 +155,51 @@ func (c *cliClient) PostAssign(e *Engine, st *State, lhs, rhs []ast.Expr, _ ast.
 }
 
 // ScopeEnd/Stmt: remember what is known about the Scanner.Err() result while its variable is in scope.
-func (c *cliClient) ScopeEnd(e *Engine, st *State, _ ast.Node) *State { return c.noteReadErr(st) }
+func (c *cliClient) ScopeEnd(e *Engine, st *State, n ast.Node) *State {
+	out := st
+	// what is known about the error of the last Compile call is kept when its variable goes out of scope
+	// (if _, err := pql.Compile(...); err != nil { ...; return })
+	if st.Ext("compileerr") != "" {
+		lo, hi := e.P.Fset.Position(n.Pos()).Offset, e.P.Fset.Position(n.End()).Offset
+		for _, k := range st.Keys() {
+			f := st.Get(k)
+			if f == nil || !hasStr(f.Tags, "compileerr") || !extMentionsScope(k, lo, hi) {
+				continue
+			}
+			switch f.Nil {
+			case 1:
+				out = out.WithExt("compileres", "nil")
+			case 2:
+				out = out.WithExt("compileres", "nonnil")
+			}
+		}
+	}
+	if r := c.noteReadErr(out); r != nil {
+		return r
+	}
+	if out != st {
+		return out
+	}
+	return nil
+}
+
+// compileOK: the error of the most recent Compile call is known to be nil on this path.
+func (c *cliClient) compileOK(st *State) bool {
+	errKey := st.Ext("compileerr")
+	if errKey == "" {
+		return false
+	}
+	if f := st.Get(errKey); f != nil && (f.Nil == 1 || f.Nil == 2) {
+		return f.Nil == 1
+	}
+	// the error was handed on (returned by a helper, copied): any variable still carrying it
+	for _, k := range st.Keys() {
+		if f := st.Get(k); f != nil && hasStr(f.Tags, "compileerr") && (f.Nil == 1 || f.Nil == 2) {
+			return f.Nil == 1
+		}
+	}
+	return st.Ext("compileres") == "nil"
+}
 func (c *cliClient) Stmt(e *Engine, st *State, _ ast.Stmt) *State     { return c.noteReadErr(st) }
 
 func (c *cliClient) noteReadErr(st *State) *State {
@@ -138,7 +234,7 @@ func (c *cliClient) PreCall(e *Engine, st *State, call *ast.CallExpr, callee *ty
 			ok = true
 		}
 		if lc, isCall := ast.Unparen(left).(*ast.CallExpr); isCall {
-			if sel, isSel := ast.Unparen(lc.Fun).(*ast.SelectorExpr); isSel && sel.Sel.Name == "String" && objOf(info, sel.X) == c.prelude && c.prelude != nil {
+			if sel, isSel := ast.Unparen(lc.Fun).(*ast.SelectorExpr); isSel && sel.Sel.Name == "String" && c.prelude != nil && c.ent(e, sel.X) == c.prelude {
 				ok = true
 			}
 		}
@@ -149,7 +245,7 @@ func (c *cliClient) PreCall(e *Engine, st *State, call *ast.CallExpr, callee *ty
 		return nil
 	}
 	// C16/let-on-success: the prelude only grows after the statement compiled.
-	if sel, ok := ast.Unparen(call.Fun).(*ast.SelectorExpr); ok && objOf(info, sel.X) == c.prelude && c.prelude != nil && strings.HasPrefix(sel.Sel.Name, "Write") {
+	if sel, ok := ast.Unparen(call.Fun).(*ast.SelectorExpr); ok && c.prelude != nil && c.ent(e, sel.X) == c.prelude && strings.HasPrefix(sel.Sel.Name, "Write") {
 		// snapshots of the prelude taken before this write are stale now
 		for k := range st.ext {
 			if strings.HasPrefix(k, "snap:") {
@@ -158,11 +254,9 @@ func (c *cliClient) PreCall(e *Engine, st *State, call *ast.CallExpr, callee *ty
 		}
 		key := fmt.Sprintf("%s prelude write #%d", c.where(e), c.ordinal(e, call, func(cc *ast.CallExpr) bool {
 			s2, ok := ast.Unparen(cc.Fun).(*ast.SelectorExpr)
-			return ok && objOf(info, s2.X) == c.prelude && strings.HasPrefix(s2.Sel.Name, "Write")
+			return ok && c.ent(e, s2.X) == c.prelude && strings.HasPrefix(s2.Sel.Name, "Write")
 		}))
-		errKey := st.Ext("compileerr")
-		f := st.Get(errKey)
-		ok := errKey != "" && f != nil && f.Nil == 1
+		ok := c.compileOK(st)
 		// what is written must be (part of) what was validated, or a constant
 		if ok && len(call.Args) == 1 && constOf(info, call.Args[0]) == nil {
 			if o := objOf(info, call.Args[0]); o == nil || !strings.Contains(","+st.Ext("compiledvars")+",", ","+e.objKey(o)+",") {
@@ -192,9 +286,7 @@ func (c *cliClient) PreCall(e *Engine, st *State, call *ast.CallExpr, callee *ty
 			return c.outputWrite(e, cc, Callee(info, cc)) != nil
 		}))
 		okFmt := wr.okShape
-		errKey := st.Ext("compileerr")
-		f := st.Get(errKey)
-		okErr := errKey != "" && f != nil && f.Nil == 1
+		okErr := c.compileOK(st)
 		okSQL := false
 		if wr.sql != nil {
 			if k := e.CanonSt(st, wr.sql); k.OK && k.Key == st.Ext("compilesql") {
@@ -285,7 +377,7 @@ func (c *cliClient) outputWrite(e *Engine, call *ast.CallExpr, callee *types.Fun
 
 // isOutput: x is the output writer of run (or a buffered wrapper of it), possibly through a helper's parameter.
 func (c *cliClient) isOutput(e *Engine, x ast.Expr) bool {
-	o := objOf(e.Info, e.ResolveExpr(x))
+	o := c.ent(e, x)
 	return o != nil && (o == c.output || c.wrappers[o])
 }
 
@@ -382,15 +474,18 @@ func ruleC16(p *Program, r *Run) {
 	if c.logErr == nil || c.output == nil {
 		fatalf("anchor not found: run's io.Writer / func(error) parameters")
 	}
+	region := p.mainRegion(fd)
 	// buffered writers around the output: w := bufio.NewWriter(output)
-	ast.Inspect(fd.Body, func(n ast.Node) bool {
+	inspectRegion(region, func(n ast.Node) bool {
 		as, ok := n.(*ast.AssignStmt)
 		if !ok || len(as.Lhs) != 1 || len(as.Rhs) != 1 {
 			return true
 		}
-		if call, ok := as.Rhs[0].(*ast.CallExpr); ok && len(call.Args) >= 1 && objOf(info, call.Args[0]) == c.output {
+		if call, ok := as.Rhs[0].(*ast.CallExpr); ok && len(call.Args) >= 1 && p.entOf(call.Args[0]) == c.output {
 			if f := Callee(info, call); f != nil && strings.HasPrefix(f.FullName(), "bufio.NewWriter") {
-				c.wrappers[objOf(info, as.Lhs[0])] = true
+				if o := p.entOf(as.Lhs[0]); o != nil {
+					c.wrappers[o] = true
+				}
 			}
 		}
 		return true
@@ -399,31 +494,33 @@ func ruleC16(p *Program, r *Run) {
 	// the prelude builder: the builder whose String() is the leftmost operand of some Compile call
 	// and which is written to inside run.
 	written := map[types.Object]bool{}
-	ast.Inspect(fd.Body, func(n ast.Node) bool {
+	inspectRegion(region, func(n ast.Node) bool {
 		if call, ok := n.(*ast.CallExpr); ok {
 			if sel, ok := ast.Unparen(call.Fun).(*ast.SelectorExpr); ok && strings.HasPrefix(sel.Sel.Name, "Write") && isBuilder(info, sel.X) {
-				written[objOf(info, sel.X)] = true
+				if o := p.entOf(sel.X); o != nil {
+					written[o] = true
+				}
 			}
 		}
 		return true
 	})
 	cands := map[types.Object]int{}
-	ast.Inspect(fd.Body, func(n ast.Node) bool {
+	inspectRegion(region, func(n ast.Node) bool {
 		call, ok := n.(*ast.CallExpr)
 		if !ok || Callee(info, call) != c.compile {
 			return true
 		}
 		left := call.Args[0]
 		for {
-			b, ok := ast.Unparen(left).(*ast.BinaryExpr)
+			b, ok := ast.Unparen(p.Resolve(left)).(*ast.BinaryExpr)
 			if !ok || b.Op != token.ADD {
 				break
 			}
 			left = b.X
 		}
-		if lc, ok := ast.Unparen(left).(*ast.CallExpr); ok {
+		if lc, ok := ast.Unparen(p.DefExpr(left)).(*ast.CallExpr); ok {
 			if sel, ok := ast.Unparen(lc.Fun).(*ast.SelectorExpr); ok && sel.Sel.Name == "String" && isBuilder(info, sel.X) {
-				if o := objOf(info, sel.X); written[o] {
+				if o := p.entOf(sel.X); o != nil && written[o] {
 					cands[o]++
 				}
 			}
@@ -431,11 +528,16 @@ func ruleC16(p *Program, r *Run) {
 		return true
 	})
 	// the prelude is the candidate that is only ever appended to (never Reset)
+	var candList []types.Object
 	for o := range cands {
+		candList = append(candList, o)
+	}
+	sort.Slice(candList, func(i, j int) bool { return candList[i].Pos() < candList[j].Pos() })
+	for _, o := range candList {
 		reset := false
-		ast.Inspect(fd.Body, func(n ast.Node) bool {
+		inspectRegion(region, func(n ast.Node) bool {
 			if call, ok := n.(*ast.CallExpr); ok {
-				if sel, ok := ast.Unparen(call.Fun).(*ast.SelectorExpr); ok && sel.Sel.Name == "Reset" && objOf(info, sel.X) == o {
+				if sel, ok := ast.Unparen(call.Fun).(*ast.SelectorExpr); ok && sel.Sel.Name == "Reset" && p.entOf(sel.X) == o {
 					reset = true
 				}
 			}
@@ -443,6 +545,28 @@ func ruleC16(p *Program, r *Run) {
 		})
 		if !reset && (c.prelude == nil || cands[o] > cands[c.prelude]) {
 			c.prelude = o
+		}
+	}
+	if c.prelude == nil {
+		// the leftmost operand may reach Compile through a helper's parameter: the prelude is then the one text
+		// buffer that is written but never reset
+		var only []types.Object
+		for o := range written {
+			reset := false
+			inspectRegion(region, func(n ast.Node) bool {
+				if call, ok := n.(*ast.CallExpr); ok {
+					if sel, ok := ast.Unparen(call.Fun).(*ast.SelectorExpr); ok && sel.Sel.Name == "Reset" && p.entOf(sel.X) == o {
+						reset = true
+					}
+				}
+				return true
+			})
+			if !reset {
+				only = append(only, o)
+			}
+		}
+		if len(only) == 1 {
+			c.prelude = only[0]
 		}
 	}
 	if c.prelude == nil {
@@ -607,9 +731,18 @@ func ruleC16Carry(p *Program, r *Run, fd *ast.FuncDecl) {
 	fn := FuncName(pkg, fd)
 	split := FuncObj(p.Parser, p.MustFunc(p.Parser, "SplitStatements"))
 	compile := FuncObj(p.PQL, p.MustFunc(p.PQL, "Compile"))
+	region := p.mainRegion(fd)
+	declOf := func(n ast.Node) *ast.FuncDecl {
+		for _, d := range region {
+			if d.Pos() <= n.Pos() && n.End() <= d.End() {
+				return d
+			}
+		}
+		return nil
+	}
 	// locate: statements := parser.SplitStatements(<pending>.String())
 	var stmts, pending types.Object
-	ast.Inspect(fd.Body, func(n ast.Node) bool {
+	inspectRegion(region, func(n ast.Node) bool {
 		as, ok := n.(*ast.AssignStmt)
 		if !ok || len(as.Rhs) != 1 || len(as.Lhs) != 1 {
 			return true
@@ -618,10 +751,10 @@ func ruleC16Carry(p *Program, r *Run, fd *ast.FuncDecl) {
 		if !ok || Callee(info, call) != split || len(call.Args) != 1 {
 			return true
 		}
-		stmts = objOf(info, as.Lhs[0])
-		if c2, ok := ast.Unparen(call.Args[0]).(*ast.CallExpr); ok {
+		stmts = p.entOf(as.Lhs[0])
+		if c2, ok := ast.Unparen(p.DefExpr(call.Args[0])).(*ast.CallExpr); ok {
 			if sel, ok := ast.Unparen(c2.Fun).(*ast.SelectorExpr); ok && sel.Sel.Name == "String" && isBuilder(info, sel.X) {
-				pending = objOf(info, sel.X)
+				pending = p.entOf(sel.X)
 			}
 		}
 		return true
@@ -630,19 +763,64 @@ func ruleC16Carry(p *Program, r *Run, fd *ast.FuncDecl) {
 	if stmts == nil || pending == nil {
 		return
 	}
+	lenMinus1 := func(e ast.Expr) bool {
+		b, ok := ast.Unparen(p.DefExpr(e)).(*ast.BinaryExpr)
+		if !ok || b.Op != token.SUB {
+			return false
+		}
+		c, ok := ast.Unparen(b.X).(*ast.CallExpr)
+		if !ok || !IsBuiltinCall(info, c, "len") || p.entOf(c.Args[0]) != stmts {
+			return false
+		}
+		v, ok := constInt(info, b.Y)
+		return ok && v == 1
+	}
 	isLastPiece := func(e ast.Expr) bool {
 		ix, ok := p.DefExpr(e).(*ast.IndexExpr)
-		return ok && objOf(info, ix.X) == stmts && isLenMinus1(info, p.DefExpr(ix.Index), stmts)
+		return ok && p.entOf(ix.X) == stmts && lenMinus1(ix.Index)
+	}
+	// callers: what a parameter of a helper stands for at each call site of the helper in the region
+	argsFor := func(decl *ast.FuncDecl, param types.Object) []ast.Expr {
+		idx, i := -1, 0
+		for _, f := range decl.Type.Params.List {
+			for _, nm := range f.Names {
+				if info.Defs[nm] == param {
+					idx = i
+				}
+				i++
+			}
+		}
+		if idx < 0 {
+			return nil
+		}
+		var out []ast.Expr
+		inspectRegion(region, func(n ast.Node) bool {
+			if call, ok := n.(*ast.CallExpr); ok {
+				if d, _ := p.DeclOf(Callee(info, call)); d == decl && idx < len(call.Args) {
+					out = append(out, call.Args[idx])
+				}
+			}
+			return true
+		})
+		return out
+	}
+	isLineBytes := func(x ast.Expr) bool {
+		c2, isCall := ast.Unparen(p.DefExpr(x)).(*ast.CallExpr)
+		if !isCall {
+			return false
+		}
+		f := Callee(info, c2)
+		return f != nil && (f.FullName() == "(*bufio.Scanner).Bytes" || f.FullName() == "(*bufio.Scanner).Text")
 	}
 	// every write into the pending buffer
 	n := 0
-	ast.Inspect(fd.Body, func(x ast.Node) bool {
+	inspectRegion(region, func(x ast.Node) bool {
 		call, ok := x.(*ast.CallExpr)
 		if !ok {
 			return true
 		}
 		sel, ok := ast.Unparen(call.Fun).(*ast.SelectorExpr)
-		if !ok || objOf(info, sel.X) != pending || !strings.HasPrefix(sel.Sel.Name, "Write") || len(call.Args) != 1 {
+		if !ok || !isBuilder(info, sel.X) || p.entOf(sel.X) != pending || !strings.HasPrefix(sel.Sel.Name, "Write") || len(call.Args) != 1 {
 			return true
 		}
 		n++
@@ -657,7 +835,7 @@ func ruleC16Carry(p *Program, r *Run, fd *ast.FuncDecl) {
 					if es, isES := s.(*ast.ExprStmt); isES && es.X == ast.Expr(call) && i > 0 {
 						if prev, isES2 := blk.List[i-1].(*ast.ExprStmt); isES2 {
 							if pc, isCall := prev.X.(*ast.CallExpr); isCall {
-								if ps, isSel := pc.Fun.(*ast.SelectorExpr); isSel && ps.Sel.Name == "Reset" && objOf(info, ps.X) == pending {
+								if ps, isSel := pc.Fun.(*ast.SelectorExpr); isSel && ps.Sel.Name == "Reset" && p.entOf(ps.X) == pending {
 									ok2, how = true, "the unterminated last piece is carried over unchanged after Reset"
 								}
 							}
@@ -669,9 +847,23 @@ func ruleC16Carry(p *Program, r *Run, fd *ast.FuncDecl) {
 				how = "the last piece is appended without resetting the buffer first"
 			}
 		default:
-			if c2, isCall := arg.(*ast.CallExpr); isCall {
-				if f := Callee(info, c2); f != nil && (f.FullName() == "(*bufio.Scanner).Bytes" || f.FullName() == "(*bufio.Scanner).Text") {
-					ok2, how = true, "the bytes of the line just read"
+			if isLineBytes(arg) {
+				ok2, how = true, "the bytes of the line just read"
+			}
+			// a parameter of a helper: what every caller passes
+			if o, isVar := objOf(info, arg).(*types.Var); isVar && !ok2 {
+				if d := declOf(call); d != nil && d != fd && p.neverReassigned(o) {
+					if as := argsFor(d, o); len(as) > 0 {
+						all := true
+						for _, a := range as {
+							if !isLineBytes(a) {
+								all = false
+							}
+						}
+						if all {
+							ok2, how = true, "the bytes of the line just read (passed in by every caller)"
+						}
+					}
 				}
 			}
 			if v, isC := constInt(info, arg); isC && v == '\n' {
@@ -689,25 +881,25 @@ func ruleC16Carry(p *Program, r *Run, fd *ast.FuncDecl) {
 	})
 	// compiled statements: range value over statements[:len-1], or the pending contents at end of input
 	var rangeVal types.Object
-	ast.Inspect(fd.Body, func(x ast.Node) bool {
+	inspectRegion(region, func(x ast.Node) bool {
 		rs, ok := x.(*ast.RangeStmt)
 		if !ok || rs.Value == nil {
 			return true
 		}
-		if sl, ok := p.DefExpr(rs.X).(*ast.SliceExpr); ok && objOf(info, sl.X) == stmts && sl.Low == nil && isLenMinus1(info, p.DefExpr(sl.High), stmts) {
+		if sl, ok := p.DefExpr(rs.X).(*ast.SliceExpr); ok && p.entOf(sl.X) == stmts && sl.Low == nil && sl.High != nil && lenMinus1(sl.High) {
 			rangeVal = objOf(info, rs.Value)
 		}
 		return true
 	})
 	r.Check(rangeVal != nil, "C16/carry", fn+" every terminated piece is visited", p.Pos(fd.Pos()), "for _, stmt := range statements[:len(statements)-1]", "the loop over the split result does not visit exactly all pieces but the last")
 	var tailVar types.Object
-	ast.Inspect(fd.Body, func(x ast.Node) bool {
+	inspectRegion(region, func(x ast.Node) bool {
 		as, ok := x.(*ast.AssignStmt)
 		if !ok || len(as.Lhs) != 1 || len(as.Rhs) != 1 {
 			return true
 		}
 		if c2, ok := as.Rhs[0].(*ast.CallExpr); ok {
-			if sel, ok := ast.Unparen(c2.Fun).(*ast.SelectorExpr); ok && sel.Sel.Name == "String" && objOf(info, sel.X) == pending && Callee(info, c2) != nil {
+			if sel, ok := ast.Unparen(c2.Fun).(*ast.SelectorExpr); ok && sel.Sel.Name == "String" && isBuilder(info, sel.X) && p.entOf(sel.X) == pending && Callee(info, c2) != nil {
 				if _, isSplitArg := p.Parent(c2).(*ast.CallExpr); !isSplitArg {
 					tailVar = objOf(info, as.Lhs[0])
 				}
@@ -715,47 +907,47 @@ func ruleC16Carry(p *Program, r *Run, fd *ast.FuncDecl) {
 		}
 		return true
 	})
-	// the Compile calls of run, and those of the small helpers run calls (with the helper's parameters replaced by
-	// the arguments of the call)
+	// the Compile calls reached from run, with the parameters of the helpers on the way replaced by what is passed
 	type compileSite struct {
 		call *ast.CallExpr
 		src  ast.Expr
 	}
-	var sites []compileSite
-	ast.Inspect(fd.Body, func(x ast.Node) bool {
-		call, ok := x.(*ast.CallExpr)
-		if !ok {
-			return true
-		}
-		callee := Callee(info, call)
-		if callee == compile {
-			sites = append(sites, compileSite{call, call.Args[0]})
-			return true
-		}
-		decl, dpkg := p.DeclOf(callee)
-		if decl == nil || dpkg != pkg || decl == fd {
-			return true
-		}
-		env := map[types.Object]ast.Expr{}
-		i := 0
-		for _, f := range decl.Type.Params.List {
-			for _, nm := range f.Names {
-				if o := info.Defs[nm]; o != nil && i < len(call.Args) && p.neverReassigned(o) {
-					env[o] = call.Args[i]
-				}
-				i++
+	var sitesOf func(decl *ast.FuncDecl, depth int) []compileSite
+	sitesOf = func(decl *ast.FuncDecl, depth int) []compileSite {
+		var out []compileSite
+		ast.Inspect(decl.Body, func(x ast.Node) bool {
+			call, ok := x.(*ast.CallExpr)
+			if !ok {
+				return true
 			}
-		}
-		ast.Inspect(decl.Body, func(y ast.Node) bool {
-			if c2, ok := y.(*ast.CallExpr); ok && Callee(info, c2) == compile && len(c2.Args) == 1 {
-				sites = append(sites, compileSite{c2, p.Subst(c2.Args[0], env)})
+			callee := Callee(info, call)
+			if callee == compile && len(call.Args) == 1 {
+				out = append(out, compileSite{call, call.Args[0]})
+				return true
+			}
+			d2, dpkg := p.DeclOf(callee)
+			if d2 == nil || dpkg != pkg || d2 == decl || depth >= 4 {
+				return true
+			}
+			env := map[types.Object]ast.Expr{}
+			i := 0
+			for _, f := range d2.Type.Params.List {
+				for _, nm := range f.Names {
+					if o := info.Defs[nm]; o != nil && i < len(call.Args) && p.neverReassigned(o) {
+						env[o] = call.Args[i]
+					}
+					i++
+				}
+			}
+			for _, s2 := range sitesOf(d2, depth+1) {
+				out = append(out, compileSite{s2.call, p.Subst(s2.src, env)})
 			}
 			return true
 		})
-		return true
-	})
+		return out
+	}
 	k := 0
-	for _, site := range sites {
+	for _, site := range sitesOf(fd, 0) {
 		call := site.call
 		k++
 		// operands of the + chain other than the leading prelude and constant suffixes
@@ -804,4 +996,110 @@ func ruleC16Carry(p *Program, r *Run, fd *ast.FuncDecl) {
 		r.Check(okStmt, "C16/carry", key, p.Pos(call.Pos()), "the piece produced by the split (or the pending text at end of input), unmodified", "the text handed to pql.Compile is not exactly one piece of the split / the pending text: "+exprStr(site.src))
 	}
 	r.Floor("C16/carry", 7)
+}
+
+// ---- entities: what identifies a text buffer, a writer or a callback across helpers and methods.
+//
+// A local variable is itself; a field selection names the field (sess.pending -> field pending); a field that a
+// composite literal or an assignment initialises with a variable stands for that variable (session{output: output}).
+
+func (p *Program) mainFieldInit() map[types.Object]types.Object {
+	if p.fieldInit != nil {
+		return p.fieldInit
+	}
+	p.fieldInit = map[types.Object]types.Object{}
+	info := p.Info
+	for _, f := range p.Main.Syntax {
+		ast.Inspect(f, func(n ast.Node) bool {
+			switch v := n.(type) {
+			case *ast.CompositeLit:
+				for _, el := range v.Elts {
+					kv, ok := el.(*ast.KeyValueExpr)
+					if !ok {
+						continue
+					}
+					fld, _ := objOf(info, kv.Key).(*types.Var)
+					val := objOf(info, kv.Value)
+					if fld != nil && fld.IsField() && val != nil {
+						if _, isVar := val.(*types.Var); isVar {
+							p.fieldInit[fld] = val
+						}
+					}
+				}
+			case *ast.AssignStmt:
+				for i, l := range v.Lhs {
+					if i >= len(v.Rhs) {
+						continue
+					}
+					if fld := selField(info, l); fld != nil {
+						if val, isVar := objOf(info, v.Rhs[i]).(*types.Var); isVar && !val.IsField() {
+							if _, dup := p.fieldInit[fld]; !dup {
+								p.fieldInit[fld] = val
+							}
+						}
+					}
+				}
+			}
+			return true
+		})
+	}
+	return p.fieldInit
+}
+
+// entOf: the entity an expression names (no helper parameters looked through).
+func (p *Program) entOf(x ast.Expr) types.Object {
+	x = ast.Unparen(x)
+	if u, ok := x.(*ast.UnaryExpr); ok && u.Op == token.AND {
+		x = ast.Unparen(u.X)
+	}
+	var o types.Object
+	switch v := x.(type) {
+	case *ast.Ident:
+		o = objOf(p.Info, v)
+	case *ast.SelectorExpr:
+		if f := selField(p.Info, v); f != nil {
+			o = f
+		} else {
+			o = objOf(p.Info, v.Sel)
+		}
+	}
+	if o == nil {
+		return nil
+	}
+	if init, ok := p.mainFieldInit()[o]; ok {
+		return init
+	}
+	return o
+}
+
+// ent: entOf with the parameters of helpers interpreted in place replaced by what was passed.
+func (c *cliClient) ent(e *Engine, x ast.Expr) types.Object {
+	if x == nil {
+		return nil
+	}
+	return c.p.entOf(e.ResolveExpr(x))
+}
+
+// mainRegion: run's body and the bodies of the functions of the command it calls (transitively).
+func (p *Program) mainRegion(fd *ast.FuncDecl) []*ast.FuncDecl {
+	out := []*ast.FuncDecl{fd}
+	seen := map[*ast.FuncDecl]bool{fd: true}
+	for i := 0; i < len(out) && i < 24; i++ {
+		ast.Inspect(out[i].Body, func(n ast.Node) bool {
+			if call, ok := n.(*ast.CallExpr); ok {
+				if d, dpkg := p.DeclOf(Callee(p.Info, call)); d != nil && d.Body != nil && dpkg == p.Main && !seen[d] {
+					seen[d] = true
+					out = append(out, d)
+				}
+			}
+			return true
+		})
+	}
+	return out
+}
+
+func inspectRegion(fds []*ast.FuncDecl, f func(ast.Node) bool) {
+	for _, fd := range fds {
+		ast.Inspect(fd.Body, f)
+	}
 }
